@@ -149,6 +149,25 @@ def vw_empty_namespace(t: str, a_state: int, b_state: int) -> bool:
     return seq_eq(got, ['1', exp(a_state), exp(b_state)])
 
 
+def vw_two_maps(t: str, first_swapped: bool) -> bool:
+    """
+    pre: 1 <= len(t) <= 3
+    pre: all(ch in 'ab_' for ch in t)
+    post: _
+    """
+    chsupport.tick()
+    # a history of two namespace maps with the SAME header (ids reassigned): every line follows the map it is parsed with
+    M1, M2 = {'A': 'f1', 'B': 'f2'}, {'B': 'f1', 'A': 'f2'}
+    line = '1 |A ' + t + ' |B b_z' + NL
+    maps = [M2, M1] if first_swapped else [M1, M2]
+    ok = True
+    for m in maps:
+        got = CU['generic_line_parser'](line, None, A('ob-vw'), m, HDR)
+        exp = ['1', t[2:], 'z'] if m['A'] == 'f1' else ['1', 'z', t[2:]]
+        ok = ok and seq_eq(got, exp)
+    return ok
+
+
 def vw_namespace_order(t: str, swapped: bool) -> bool:
     """
     pre: 1 <= len(t) <= 3
@@ -292,6 +311,15 @@ def vw_empty_namespace_twin(t: str, a_state: int, b_state: int) -> bool:
     post: not _
     """
     return vw_empty_namespace(t, a_state, b_state)
+
+
+def vw_two_maps_twin(t: str, first_swapped: bool) -> bool:
+    """
+    pre: 1 <= len(t) <= 3
+    pre: all(ch in 'ab_' for ch in t)
+    post: not _
+    """
+    return vw_two_maps(t, first_swapped)
 
 
 def vw_namespace_order_twin(t: str, swapped: bool) -> bool:
